@@ -562,6 +562,26 @@ def r10_no_test_that_cannot_match(ctx):
            "the default port is dialled" % (ctx.P.owner(bad[0][0]).split("::")[-1], bad[0][2], bad[0][3], bad[0][2]))
 
 
+def r11_header_text_is_utf8_both_ways(ctx):
+    """the header block is turned into text by UTF-8 decoding (`String::from_utf8` / `from_utf8_lossy` / `str::from_utf8`) and
+    back into bytes by `as_bytes()`: one codec in both directions.  A decode of another kind (one char per byte, i.e.
+    ISO-8859-1) paired with the UTF-8 encode doubles every byte >= 0x80 of the target and of header values on the way out"""
+    body = co(ctx, "R17.11", HP + "handle_http_proxy_connection")
+    if body is None:
+        return
+    o = ctx.origins(body)
+    ps = calls_norm(body, "http_proxy::parse_http_request")
+    if not ctx.floor("R17.11", "parse_http_request call in handle_http_proxy_connection", len(ps), 1):
+        return
+    t = o.of_operand(ps[0].args[0])
+    dec = [s_ for s_ in subterms(t) if is_call_term(s_, "String::from_utf8", "String::from_utf8_lossy", "str::from_utf8", "::from_utf8", "::from_utf8_lossy", "::from_utf8_unchecked")]
+    other = [s_ for s_ in subterms(t) if isinstance(s_, tuple) and s_ and s_[0] == "call" and s_[1].split("::")[-1] in ("collect", "from_iter", "from_utf16", "from_utf16_lossy", "extend")]
+    ok = bool(dec) and not other
+    ctx.ob("R17.11", "handle_http_proxy_connection:header-bytes-are-decoded-as-utf8", ok, ps[0].site, "the text parsed is String::from_utf8(header bytes)" if ok else
+           "the header text handed to the parser is `%s`: not a UTF-8 decoding of the bytes read, while build_forward_request still encodes with as_bytes() (UTF-8) — every byte >= 0x80 in the request target "
+           "or a header value leaves the proxy as two bytes (`José` -> `JosÃ©`)" % fmt(t)[:80])
+
+
 def run(ctx):
     r9_host_field_name_any_case(ctx)
     r8_body_once_and_forms(ctx)
@@ -575,6 +595,7 @@ def run(ctx):
     r3c_first_terminator(ctx)
     r6_target_derivation(ctx)
     r10_no_test_that_cannot_match(ctx)
+    r11_header_text_is_utf8_both_ways(ctx)
     r7_parsing_totality(ctx)
     r4_rewriting(ctx)
     C16.accept_loop_rules(ctx, "R17.5", HP + "start_http_proxy_server", "http_proxy::handle_http_proxy_connection", "http")
